@@ -8,7 +8,7 @@ TRUSTED = [
     "hand-written model props/C03/coq/Model.v of Chunks.Pack/unpack (on varint values), getLIDsBlockGenerator, "
     "lids.Table, IteratorAsc/IteratorDesc, sort.Search, the registry ext words, getTokensBlocksGenerator, "
     "getIDsBlocksGenerator, writeDocsInOrder/docBlocksWriter/DocPos/extractDocs (sorted-docs rewrite), registry "
-    "write + Loader.Load section walk (tied to /repo by the correspondence run, not verified code; the registry walk "
+    "write + Loader.Load section walk, writeTokensBlocks table entries / physical blocks + GetEntryByTID / GetValByTID (tied to /repo by the correspondence run, not verified code; the registry walk "
     "only end to end through the reloaded form)",
     "Go harness harness/cmd/hC03 (generators, canonical forms of answers, brute-force oracle of the end-to-end part)",
     "outside the model: zstd/lz4, varint BYTE encoding, file I/O, caches (identity on their loader: C18), search "
@@ -29,7 +29,9 @@ RULE = ("unit level with SMALL block capacities (1..8) so that every run has tok
         "x cache sizes x sort-docs on/off. non-trivial = a token spans two blocks / >= 2 blocks / answer non-empty on a "
         "block-straddling corpus; distinct by input. Sorted-docs rewrite: real writeDocsInOrder + docBlocksWriter + DocsReader on "
         "small files with block sizes 1..200 (several blocks, nested IDs). Chains of 3..5 seals in one manager: every preloaded "
-        "fraction re-asked after each later seal and after a reload")
+        "fraction re-asked after each later seal and after a reload. Token table: real writeTokensBlocks + TableLoader + BlockLoader on "
+        "dictionaries with several physical blocks, EVERY TID looked up through GetEntryByTID/GetValByTID; end to end: count and sum "
+        "aggregations grouped by the multi-block dictionary fields over all documents")
 
 
 def harness_args(tier, seed, outdir):
